@@ -4,7 +4,6 @@
 From Coq Require Import Permutation.
 From V.model Require Import Base CodecStr EnumTab Codecs.
 From V.proofs Require Import BaseP CodecStrP EnumTabP.
-Set Default Timeout 60.
 
 Local Open Scope N_scope.
 
